@@ -176,7 +176,20 @@ def add_between(rng, c):
     return c
 
 
+NORM_DTYPES = ['bool', 'uint8', 'int32', 'int64', 'float32', 'float64']
+
+
 def gen_norm(rng, tier):
+    if rng.random() < 0.35:        # aperture masks / amplitudes of every array dtype a caller may hold them in
+        dt = rng.choice(NORM_DTYPES)
+        big = dt in ('bool', 'uint8') and rng.random() < 0.5
+        m, n = (rng.randint(16, 18), rng.randint(16, 18)) if big else (rng.randint(1, 6), rng.randint(1, 6))
+        hi = 1 if dt in ('bool', 'uint8') else 3
+        while True:
+            a = [[[1 if big and rng.random() < 0.95 else rng.randint(0, hi), 0] for _ in range(n)] for _ in range(m)]
+            if any(v[0] for row in a for v in row):
+                break
+        return {'op': 'normalize', 'a': a, 'dtype': dt, 'power': rng.choice(['1', '2', '1/2', '7', '0.375', '1000', '3'])}
     m, n = rng.randint(1, 5), rng.randint(1, 5)
     vals = [0, 1, -1, 2, 0.5, -1.5, 3, 0.25]
     while True:
@@ -274,7 +287,7 @@ def classify(c):
     if c['op'] == 'prop':
         return 'prop/os%d/%s/%s%s' % (c['os'], c['aniso'], 'norm' if c.get('power') else 'raw',
                                       '/history' if c.get('between') else '')
-    return c['op']
+    return c['op'] + ('/' + c['dtype'] if c.get('dtype') else '')
 
 
 def nontrivial(c):
@@ -378,7 +391,10 @@ def run_impl(c):
     fresh_state(lentil)
     try:
         if c['op'] == 'normalize':
-            a = np.array([[complex(v[0], v[1]) for v in row] for row in c['a']], dtype=complex)
+            if c.get('dtype'):
+                a = np.array([[v[0] for v in row] for row in c['a']]).astype(getattr(np, c['dtype'] + ('_' if c['dtype'] == 'bool' else '')))
+            else:
+                a = np.array([[complex(v[0], v[1]) for v in row] for row in c['a']], dtype=complex)
             b = lentil.normalize_power(a, float(Fraction(c['power'])))
             return {'arr': np.asarray(b).tolist(), 'power': float(np.sum(np.abs(np.asarray(b)) ** 2))}
         dx, du, z, lam = sampling(c)
@@ -453,8 +469,9 @@ def run_between(lentil, c, b, wavefront, fdu, z, os_):
     tot, mn = [], 0.0
     if b['kind'] == 'tilt':
         # angles giving fx / fy output samples of image motion
-        tx = float(Fraction(b['fx'])) * fdu[1] / (z * os_)
-        ty = float(Fraction(b['fy'])) * fdu[0] / (z * os_)
+        # (Tilt(x=a, y=b) moves the image by z*a/du_row*os rows and -z*b/du_col*os columns)
+        tx = float(Fraction(b['fx'])) * fdu[0] / (z * os_)
+        ty = float(Fraction(b['fy'])) * fdu[1] / (z * os_)
         for _ in range(b['repeat']):
             img = lentil.propagate_dft(wavefront((tx, ty), b['via']), pixelscale=fdu, shape=s, oversample=os_).intensity
             tot.append(float(np.sum(img)))
@@ -549,7 +566,7 @@ def compare(c, impl, model):
         if a.shape != b.shape:
             return f'normalize_power: shapes differ {a.shape} vs {b.shape}'
         d = float(np.max(np.abs(a - b)))
-        if d > 1e-12 * (1 + float(np.max(np.abs(b)))):
+        if d > (1e-6 if c.get('dtype') == 'float32' else 1e-12) * (1 + float(np.max(np.abs(b)))):
             return f'normalize_power differs from array*sqrt(power/sum|array|^2): max difference {d:.3g}'
         return None
     if model['imag'] > 1e-9 * (1 + model['pin']):
@@ -575,8 +592,8 @@ def oracle(c, impl):
         return oracle_hist(c, impl)
     if c['op'] == 'normalize':
         p = float(Fraction(c['power']))
-        if abs(impl['power'] - p) > 1e-12 * (1 + p):
-            return f'normalize_power(a, {p}) has power {impl["power"]!r}'
+        if abs(impl['power'] - p) > (1e-6 if c.get('dtype') == 'float32' else 1e-12) * (1 + p):
+            return f'normalize_power(a, {p}) has power {impl["power"]!r}' + (f' (array dtype {c["dtype"]})' if c.get('dtype') else '')
         return None
     p = float(Fraction(c['power'])) if c.get('power') else None
     pin = impl['pin_field']
